@@ -20,6 +20,7 @@ TReset == /\ Ev("reset")
           /\ perm' = PermStr(R) /\ ntasks' = R.n
           /\ queued' = {} /\ started' = {} /\ ended' = {} /\ failed' = {} /\ lateQ' = {}
           /\ stop' = "idle" /\ wait' = "no" /\ stopFirst' = FALSE
+          /\ recs' = <<>> /\ recDone' = {} /\ stopAtFirstRec' = "idle" /\ firstDoneAtStop' = FALSE
 TRun      == Ev("run")       /\ RunCall(R.i)
 TStart    == Ev("start")     /\ Start(R.i)
 TEnd      == Ev("end")       /\ End(R.i, R.res)
@@ -27,9 +28,11 @@ TStopCall == Ev("stop_call") /\ StopCall
 TStopRet  == Ev("stop_ret")  /\ StopRet
 TWaitCall == Ev("wait_call") /\ WaitCall
 TWaitRet  == Ev("wait_ret")  /\ WaitRet(R.res, R.ei)
+TRecBegin == Ev("rec_begin") /\ RecBegin(R.i)
+TRecEnd   == Ev("rec_end")   /\ RecEnd(R.i)
 TFin      == Ev("fin")       /\ Fin
 
-TraceNext == TReset \/ TRun \/ TStart \/ TEnd \/ TStopCall \/ TStopRet \/ TWaitCall \/ TWaitRet \/ TFin
+TraceNext == TReset \/ TRun \/ TStart \/ TEnd \/ TStopCall \/ TStopRet \/ TWaitCall \/ TWaitRet \/ TRecBegin \/ TRecEnd \/ TFin
 TraceSpec == TraceInit /\ [][TraceNext]_tvars
 HWM      == TLCSet(1, IF TLCGet(1) > l - 1 THEN TLCGet(1) ELSE l - 1)
 Accepted == PrintT(<<"TRACE_HWM", TLCGet(1)>>) /\ TLCGet(1) = NL
